@@ -14,7 +14,11 @@ write, next-or-close) and the property is stated against the declarative Expecte
    and the tokio runtime (plus byte-exact extremes: bytewise, whole, every single split point).
 3. code -> spec: the client-side log of every connection (Send/Recv/Eof/Quiet/Idle*/Shut) is validated
    by TLC against Trace_HttpConn (server steps silent). Dev = {} first; a connection rejected there is
-   re-validated under the open known deviations only; unexplained => VIOLATION."""
+   re-validated under the open known deviations only; unexplained => VIOLATION.
+   A second, hook-free trace source rides along: Humphrey's own MonitorConfig events for the connection's
+   peer address (ConnectionSuccess, ThreadPoolProcessStarted, RequestServed*, RequestTimeout,
+   KeepAliveRespected, ConnectionClosed), drained after the client has seen the server's close, must equal
+   MonExpected(model state) for the connection to count as accepted."""
 import json
 import os
 import random
